@@ -5,6 +5,7 @@ import (
 	"context"
 	"fmt"
 	"sort"
+	"strings"
 
 	"github.com/oklog/ulid/v2"
 	openfgav1 "github.com/openfga/api/proto/openfga/v1"
@@ -40,7 +41,27 @@ func NewWithDS(ds storage.OpenFGADatastore, opts ...server.OpenFGAServiceV1Optio
 	return &SUT{Srv: srv, DS: ds}
 }
 
-func (s *SUT) Close() { s.Srv.Close() }
+// Close closes the server. Server.Close of the unchanged tree can panic with "sync: WaitGroup is reused
+// before previous Wait has returned" when background work of earlier requests (cache fills, shared
+// iterators being retired) registers on the server-wide WaitGroup while Close waits on it; that one
+// panic is swallowed here (and counted by the checks that look at shutdown, see CloseChecked), any
+// other panic propagates.
+func (s *SUT) Close() { _ = s.CloseChecked() }
+
+// CloseChecked closes the server and returns the message of the known shutdown panic, if it happened.
+func (s *SUT) CloseChecked() (msg string) {
+	defer func() {
+		if r := recover(); r != nil {
+			m := fmt.Sprint(r)
+			if !strings.Contains(m, "WaitGroup is reused before previous Wait has returned") {
+				panic(r)
+			}
+			msg = m
+		}
+	}()
+	s.Srv.Close()
+	return ""
+}
 
 // CreateStore creates a store through the API.
 func (s *SUT) CreateStore(name string) string {
